@@ -247,7 +247,8 @@ LINTERS = {
                             sweeps={"min_methods": [1, 2, 3, 5]}, cli={}, langs=[], limits=[], invalid={}),
     "pipeline": dict(cmd="pipeline", sections=["pipeline", "collection-pipeline"], prefix="collection-pipeline", files={"src/p.py": PIPE}, base={},
                      sweeps={"min_continues": [1, 2, 3]}, cli={"min_continues": "--min-continues"}, langs=[], limits=["min_continues"], invalid={"min_continues": [0]}),
-    "lazy-ignores": dict(cmd="lazy-ignores", sections=["lazy-ignores"], prefix="lazy-ignores", files={"src/m.py": MISC}, base={}, sweeps={}, cli={}, langs=[], limits=[], invalid={}),
+    "lazy-ignores": dict(cmd="lazy-ignores", sections=["lazy-ignores"], prefix="lazy-ignores", files={"src/m.py": MISC}, base={},
+                         sweeps={"check_noqa": [True, False]}, cli={}, langs=[], limits=[], invalid={}),
     "performance": dict(cmd="perf", sections=["performance"], prefix="performance", files={"src/m.py": MISC}, base={}, sweeps={}, cli={}, langs=[], limits=[], invalid={}),
     "stringly-typed": dict(cmd="stringly-typed", sections=["stringly-typed"], prefix="stringly-typed", files={"src/sa.py": STRINGLY_A, "src/sb.py": STRINGLY_B}, base={},
                            sweeps={"min_occurrences": [1, 2, 3], "min_values_for_enum": [2, 3, 4]}, cli={}, langs=["python"], lang_opts=["min_occurrences", "min_values_for_enum"],
@@ -263,7 +264,7 @@ LINTERS = {
 }
 CARRIERS = ["yaml", "json", "pyproject", "explicit-yaml", "explicit-json"]
 CARRIER_FILES = {"yaml": ".thailint.yaml", "json": ".thailint.json", "pyproject": "pyproject.toml", "explicit-yaml": "custom-config.yaml", "explicit-json": "custom-config.json"}
-KNOWN_UNCONFIGURABLE = {"lazy-ignores"}     # finding F05g: the rule never reads its section
+KNOWN_UNCONFIGURABLE: set = set()     # (finding F05g, lazy-ignores never read its section: repaired)
 
 
 def toml_dump(cfg):
